@@ -64,13 +64,17 @@ def norm(x):
     return json.loads(json.dumps(x, sort_keys=True))
 
 
+class _EmptyResult(Exception):
+    pass
+
+
 def attempt(fn):
     """('ok', value) | ('parse-error', what) | ('eos',) | ('exc', type)"""
     from pylatexenc.latexwalker import LatexWalkerParseError, LatexWalkerEndOfStream
     from pylatexenc.latexnodes import LatexWalkerError
     try:
         return ('ok', fn())
-    except LatexWalkerEndOfStream:
+    except (LatexWalkerEndOfStream, _EmptyResult):
         return ('parse-error', None)
     except LatexWalkerError as e:        # any error of the library's own hierarchy is "it fails"
         return ('parse-error', None)
@@ -250,6 +254,22 @@ def check_single_variants(s, pos, res):
                                 token_reader=tr)
         return (clear_args_for_expression(norm(dump(n))), n.pos, n.pos_end - n.pos)
     compare('get_latex_expression', attempt(legacy_e), attempt(new_e), res, case)
+    # strict_braces None / False: where the new parser fails, the legacy call fails too -- by raising
+    # or by its documented empty result (no node, or an empty chars node of length 0)
+    for sb in (None, False):
+        def legacy_ns():
+            n, p, l = walker(s).get_latex_expression(pos, strict_braces=sb)
+            if n is None or (l == 0 and getattr(n, 'chars', None) == ''):
+                raise _EmptyResult()
+            return (clear_args_for_expression(norm(dump(n))), p, l)
+
+        def new_ns():
+            v = new_e()
+            if v[2] == 0 and v[0].get('k') == 'chars':
+                raise _EmptyResult()
+            return v
+        compare('get_latex_expression(strict_braces=%r)' % (sb,), attempt(legacy_ns), attempt(new_ns),
+                res, dict(case, what='expression-nonstrict', arg=sb))
     # the same entry points with an explicit parsing_state= (it must reach the parser)
     import zlib
     pskw = PS_VARIANTS[zlib.crc32(('%s@%d' % (s, pos)).encode('utf-8')) % len(PS_VARIANTS)]
@@ -403,6 +423,7 @@ def check_single_variants(s, pos, res):
 
 ARGSPECS = [''.join(t) for l in range(0, 5) for t in itertools.product('*[{', repeat=l)]
 SUFFIXES = ['{}tail', '', ' ', 'x', '\n\nz', '}']
+MISSING_ARG_TAILS = ['$y$', '\\(y\\)', '\\[y\\] z', '$$y$$']
 SUFFIXES_ENV = [' body', '', 'body', '\n\nz']
 
 
@@ -482,8 +503,14 @@ def check_spellings(argspec, res, env=False):
         from pylatexenc.macrospec import MacroSpec, EnvironmentSpec
         db.set_unknown_macro_spec(MacroSpec(''))
         db.set_unknown_environment_spec(EnvironmentSpec(''))
-        for pattern0, ws, call, sfx in [(p_, w_, c_, x_) for p_, w_, c_ in call_strings(argspec)
-                                        for x_ in (SUFFIXES_ENV if env else SUFFIXES)]:
+        calls = [(p_, w_, c_, x_) for p_, w_, c_ in call_strings(argspec)
+                 for x_ in (SUFFIXES_ENV if env else SUFFIXES)]
+        if argspec.endswith('{') and not env:
+            # a math delimiter where the last mandatory argument is expected: every spelling fails
+            last = '{m%d}' % (len(argspec) - 1)
+            calls += [(p_ + ('missing',), w_, c_[:-len(last)], x_) for p_, w_, c_ in call_strings(argspec)
+                      if c_.endswith(last) for x_ in MISSING_ARG_TAILS]
+        for pattern0, ws, call, sfx in calls:
             # what follows a complete call: another group, end of input, a blank, a letter, a
             # paragraph break, the closing brace of an enclosing group
             pattern = pattern0 + (sfx,)
